@@ -39,11 +39,11 @@ fn c18_scanner_transmit() {
     let now = crate::time::Instant::from_micros(kani::any::<u32>());
     let hp = if kani::any() { HighPrioOnly::Yes } else { HighPrioOnly::No };
     let res = sc.transmit_telegram(now, &fdl, TelegramTx::new(&mut buf), hp);
-    assert!(sc.stations.data[0] == pre_words[0] && sc.stations.data[1] == pre_words[1], "C18/list: asking for a telegram never changes the list");
+    vassert!(sc.stations.data[0] == pre_words[0] && sc.stations.data[1] == pre_words[1], "C18/list: asking for a telegram never changes the list");
     if pre_done {
-        assert!(res.is_none(), "C18/sweep: after an address is done the application ends its turn");
-        assert!(sc.cursor == if pre_cursor == 125 { 0 } else { pre_cursor + 1 }, "C18/sweep: the sweep advances by exactly one address, wrapping after 125");
-        assert!(!sc.current_address_done, "C18/sweep: the next address is pending");
+        vassert!(res.is_none(), "C18/sweep: after an address is done the application ends its turn");
+        vassert!(sc.cursor == if pre_cursor == 125 { 0 } else { pre_cursor + 1 }, "C18/sweep: the sweep advances by exactly one address, wrapping after 125");
+        vassert!(!sc.current_address_done, "C18/sweep: the next address is pending");
     } else {
         let r = res.unwrap();
         let h = DataTelegramHeader {
@@ -55,16 +55,16 @@ fn c18_scanner_transmit() {
         };
         let mut expect = [0u8; 12];
         let elen = ref_encode(&h, 0, |_| 0, &mut expect);
-        assert!(r.bytes_sent() == elen && r.expects_reply() == Some(pre_cursor), "C18/probe: a diagnostics request to the cursor address, expecting its reply");
+        vassert!(r.bytes_sent() == elen && r.expects_reply() == Some(pre_cursor), "C18/probe: a diagnostics request to the cursor address, expecting its reply");
         let mut i = 0;
         while i < elen {
-            assert!(buf[i] == expect[i], "C18/probe: the probe is a first-FCB diagnostics request (DSAP 60, SSAP 62) to the cursor address");
+            vassert!(buf[i] == expect[i], "C18/probe: the probe is a first-FCB diagnostics request (DSAP 60, SSAP 62) to the cursor address");
             i += 1;
         }
-        assert!(sc.cursor == pre_cursor && !sc.current_address_done, "C18/sweep: the cursor stays until reply or time-out");
+        vassert!(sc.cursor == pre_cursor && !sc.current_address_done, "C18/sweep: the cursor stays until reply or time-out");
         kani::cover!(true, "cover: probe sent");
     }
-    assert!(sc.cursor <= 125, "C18/probe: only addresses 0..125 are probed");
+    vassert!(sc.cursor <= 125, "C18/probe: only addresses 0..125 are probed");
 }
 
 #[kani::proof]
@@ -95,32 +95,32 @@ fn c18_scanner_reply_or_timeout() {
         sc.receive_reply(now, &fdl, addr, t);
         let diag_ok = !is_sc && dsap == Some(62) && ssap == Some(60) && plen >= 6;
         let ev = sc.take_last_event();
-        assert!(others_unchanged(&pre_words, &sc.stations.data, addr), "C18/list: no other address changes");
+        vassert!(others_unchanged(&pre_words, &sc.stations.data, addr), "C18/list: no other address changes");
         if diag_ok {
             let desc = DpPeripheralDescription {
                 address: addr,
                 ident: u16::from(pdu[4]) << 8 | u16::from(pdu[5]),
                 master_address: if pdu[3] == 255 { None } else { Some(pdu[3]) },
             };
-            assert!(bit(&sc.stations.data, addr), "C18/list: a peripheral answering diagnostics is known");
+            vassert!(bit(&sc.stations.data, addr), "C18/list: a peripheral answering diagnostics is known");
             if was_set {
-                assert!(ev == Some(DpScanEvent::PeripheralRequery(desc)), "C18/events: a known peripheral is re-queried, not found again");
+                vassert!(ev == Some(DpScanEvent::PeripheralRequery(desc)), "C18/events: a known peripheral is re-queried, not found again");
             } else {
-                assert!(ev == Some(DpScanEvent::PeripheralFound(desc)), "C18/events: Found, with ident number and master address from the reply, exactly when the peripheral was unknown");
+                vassert!(ev == Some(DpScanEvent::PeripheralFound(desc)), "C18/events: Found, with ident number and master address from the reply, exactly when the peripheral was unknown");
                 kani::cover!(true, "cover: peripheral found");
             }
         } else {
-            assert!(ev.is_none(), "C18/events: a reply that is not a diagnostics response produces no event");
-            assert!(bit(&sc.stations.data, addr) == was_set, "C18/list: a reply that is not a diagnostics response does not change the list");
+            vassert!(ev.is_none(), "C18/events: a reply that is not a diagnostics response produces no event");
+            vassert!(bit(&sc.stations.data, addr) == was_set, "C18/list: a reply that is not a diagnostics response does not change the list");
             kani::cover!(!is_sc && plen < 6, "cover: short diagnostics reply ignored");
         }
     } else {
         sc.handle_timeout(now, &fdl, addr);
-        assert!(!bit(&sc.stations.data, addr), "C18/list: a silent address is not known");
-        assert!(others_unchanged(&pre_words, &sc.stations.data, addr), "C18/list: no other address changes");
+        vassert!(!bit(&sc.stations.data, addr), "C18/list: a silent address is not known");
+        vassert!(others_unchanged(&pre_words, &sc.stations.data, addr), "C18/list: no other address changes");
         let ev = sc.take_last_event();
-        assert!(ev == if was_set { Some(DpScanEvent::PeripheralLost(addr)) } else { None }, "C18/events: Lost exactly when the peripheral was known");
+        vassert!(ev == if was_set { Some(DpScanEvent::PeripheralLost(addr)) } else { None }, "C18/events: Lost exactly when the peripheral was known");
         kani::cover!(was_set, "cover: peripheral lost");
     }
-    assert!(sc.current_address_done && sc.cursor == addr, "C18/sweep: the address is done");
+    vassert!(sc.current_address_done && sc.cursor == addr, "C18/sweep: the address is done");
 }
